@@ -126,7 +126,48 @@ def attr_of_arg(fn, arg):
     return keys
 
 
+ALL_FIELDS = []
+
+
+def truncation_obligations(ck, fields):
+    """Small-domain interpretation of TruncFormatter.format_field: for every
+    field spec the writers use, an over-long formatted text comes out exactly
+    `width` characters long."""
+    from .. import interp
+    tf = ck.index.mod('vermouth/truncating_formatter.py')
+    fn = tf.func('TruncFormatter.format_field')
+    ck.analysed(tf, fn)
+    start = next((i for i, st in enumerate(fn.body) if isinstance(st, ast.If) and u(st.test) == 'spec.width'), None)
+    ck.ob('FMT-truncation-code', tf.loc(fn), start is not None, 'TruncFormatter.format_field: the truncation part (from `if spec.width:`) was located', key='FMT-truncation-code|located')
+    if start is None:
+        return
+    tail = fn.body[start:]
+    head = u(ast.Module(body=fn.body[:start], type_ignores=[]))
+    ck.ob('FMT-truncation-code', tf.loc(fn), "format_spec.endswith('t')" in head and 'truncate = True' in head and 'format_spec = format_spec[:-1]' in head
+          and 'result = super().format_field(value, format_spec)' in head,
+          'the trailing t switches truncation on and is stripped before the standard formatting', key='FMT-truncation-code|flag')
+    seen = set()
+    for label, fld in fields:
+        sig = (fld.align, fld.type, fld.width)
+        if sig in seen or fld.width is None or not fld.trunc:
+            continue
+        seen.add(sig)
+        sample = {'s': 'abcdefghijklmnopqrstuvwxyz', 'd': 1234567890123456, 'f': 1234567.891}.get(fld.type or 's', 'abcdefghij')
+        text = '0123456789ABCDEFGHIJKLMNOPQRSTUVWXYZ'[:fld.width + 3]
+        env = {'spec.width': str(fld.width), 'spec.type': fld.type, 'spec.align': fld.align, 'truncate': True, 'result': text, 'value': sample}
+        try:
+            out = interp.call(tail, env)
+            ok = isinstance(out, str) and len(out) == fld.width
+            detail = 'an over-long text {!r} comes out as {!r}'.format(text, out)
+        except interp.Unsupported as err:
+            ok = False
+            detail = 'code outside the interpretable fragment: {}'.format(err)
+        ck.ob('FMT-truncation-code', tf.loc(fn), ok, 'spec `{}{}{}t` ({}): {} (must be exactly {} characters)'.format(
+            fld.align or '', fld.width, fld.type or '', label, detail, fld.width), key='FMT-truncation-code|{}{}{}'.format(fld.align or '', fld.width, fld.type or ''))
+
+
 def run(ck):
+    del ALL_FIELDS[:]
     idx = ck.index
     pdb = idx.mod(PDB)
     gro = idx.mod(GRO)
@@ -159,6 +200,7 @@ def run(ck):
             tag = fmt[:6]
             records.setdefault(tag, []).append((call, fmt, fields, lits, label))
             for fld in fields:
+                ALL_FIELDS.append(('pdb ' + tag.strip(), fld))
                 ok = fld.valid and fld.width is not None and fld.trunc
                 ck.ob('FMT-trunc', where, ok,
                       'field {} `{{:{}}}` of record {!r} {} has explicit width and truncation flag'.format(
@@ -230,27 +272,34 @@ def run(ck):
                         'PDBParser.do_conect vanished')
     ck.analysed(pdb, do_conect)
     rng = [n for n in walk_local(do_conect) if isinstance(n, ast.Call) and call_name(n) == 'range' and len(n.args) == 3]
-    ck.need(len(rng) == 1, 'CONECT reader: range(start, stop, width) loop not found')
+    ck.ob('FMT-serial', pdb.loc(do_conect), len(rng) == 1,
+          'the CONECT reader cuts the record into fixed-width cells (a range(start, stop, width) loop over the columns); free-format splitting cannot separate abutting serials',
+          key='FMT-serial|CONECT-reader-fixed')
+    if len(rng) != 1:
+        rng = None
     cenv = {}
     for name in ('start', 'width'):
         d = single_def(do_conect, name)
         if d is not None:
             cenv[name] = d
-    r_start = try_fold(rng[0].args[0], cenv)
-    r_stride = try_fold(rng[0].args[2], cenv)
-    ck.need(isinstance(r_start, int) and isinstance(r_stride, int), 'CONECT reader: start/stride do not fold to integers')
-    loop = pdb.enclosing(rng[0], ast.For)
-    lv = loop.target.id if isinstance(loop.target, ast.Name) else None
-    slices = [n for n in ast.walk(loop) if isinstance(n, ast.Subscript) and isinstance(n.slice, ast.Slice)]
-    ok_slice = False
-    for s in slices:
-        lo, hi = s.slice.lower, s.slice.upper
-        if isinstance(lo, ast.Name) and lo.id == lv and isinstance(hi, ast.BinOp) and isinstance(hi.op, ast.Add):
-            w = try_fold(hi.right, cenv) if (isinstance(hi.left, ast.Name) and hi.left.id == lv) else None
-            ok_slice = (w == r_stride)
-    ck.ob('FMT-serial', pdb.loc(rng[0]), ok_slice and r_stride == serial_w and r_start == rfields[0][2],
-          'CONECT reader reads cells of width {} from column {} (serial width {}, record name width {})'.format(
-              r_stride, r_start, serial_w, rfields[0][2]), key='FMT-serial|CONECT-reader')
+    r_start, r_stride = rfields[0][2], serial_w
+    if rng:
+        r_start = try_fold(rng[0].args[0], cenv)
+        r_stride = try_fold(rng[0].args[2], cenv)
+        loop = pdb.enclosing(rng[0], ast.For)
+        lv = loop.target.id if loop is not None and isinstance(loop.target, ast.Name) else None
+        slices = [n for n in ast.walk(loop) if isinstance(n, ast.Subscript) and isinstance(n.slice, ast.Slice)] if loop is not None else []
+        ok_slice = False
+        for s in slices:
+            lo, hi = s.slice.lower, s.slice.upper
+            if isinstance(lo, ast.Name) and lo.id == lv and isinstance(hi, ast.BinOp) and isinstance(hi.op, ast.Add):
+                w = try_fold(hi.right, cenv) if (isinstance(hi.left, ast.Name) and hi.left.id == lv) else None
+                ok_slice = (w == r_stride)
+        ck.ob('FMT-serial', pdb.loc(rng[0]), ok_slice and isinstance(r_start, int) and isinstance(r_stride, int) and r_stride == serial_w and r_start == rfields[0][2],
+              'CONECT reader reads cells of width {} from column {} (serial width {}, record name width {})'.format(
+                  r_stride, r_start, serial_w, rfields[0][2]), key='FMT-serial|CONECT-reader')
+        if not (isinstance(r_start, int) and isinstance(r_stride, int)):
+            r_start, r_stride = rfields[0][2], serial_w
     ck.need('CONECT' in records, 'CONECT record format call not found')
     for ccall, cfmt, cfields, clits, label in records['CONECT']:
         prev_end = len('CONECT')
@@ -415,6 +464,7 @@ def run(ck):
         ck.ob('FMT-formatter', where, kind == 'trunc', 'GRO {} line is formatted with TruncFormatter'.format(tag),
               key='FMT-formatter|write_gro|' + tag)
         for fld in fields:
+            ALL_FIELDS.append(('gro ' + tag, fld))
             ck.ob('FMT-trunc', where, fld.valid and fld.width is not None and fld.trunc,
                   'field {} `{{:{}}}` of GRO {} line has explicit width and truncation flag'.format(fld.index, fld.spec, tag),
                   key='FMT-trunc|gro|{}|{}'.format(tag, fld.index))
@@ -456,5 +506,6 @@ def run(ck):
                                         stmts=[l for l in walk_local(gr) if isinstance(l, ast.For) and 'field_widths' in u(l.iter)][0].body):
         ck.ob('FMT-reader-accumulate', gro.loc(st), flow.valid(cond) and 'width' in u(st),
               'GRO reader column counter advances for every field (`{}`)'.format(u(st)), key='FMT-reader-accumulate|read_gro')
+    truncation_obligations(ck, ALL_FIELDS)
     ck.assume('PDB/GRO layouts are compared between the writer format strings and the reader column tables of the same tree; '
               'numeric precision of the round trip is not decided')
